@@ -40,6 +40,15 @@ def Cmp.evalOpt (c : Cmp) : Option Rat → Rat → Bool
   | none, _ => false
   | some a, b => c.evalRat a b
 
+/-- how the source tests an optional argument: `x is not None` or plain truthiness `if x:`. -/
+inductive OptTest where
+  | isNotNone | truthy
+  deriving Repr, DecidableEq, Inhabited
+
+def OptTest.eval (t : OptTest) : Option Rat → Bool
+  | none => false
+  | some v => match t with | .isNotNone => true | .truthy => v != 0
+
 /-- `np.argmax` on a non-empty list: index of the FIRST maximum. `none` on the empty list
 (numpy raises ValueError there). -/
 def argmaxFirst : List Rat → Option Nat
